@@ -517,7 +517,8 @@ impl World {
                 Some(a) => ATxKind::Call(a),
                 None => ATxKind::Create,
             },
-            value: U256::ZERO,
+            // no account holds any balance and nothing transfers value: the value field of a signed payload is inert
+            value: if (nonce * 5 + input.len() as u64 + signer_idx as u64 * 3) % 7 == 0 { U256::from(1u64 + nonce) } else { U256::ZERO },
             input: input.into(),
         };
         let sig = s.sign_hash_sync(&tx.signature_hash()).expect("sign");
